@@ -121,3 +121,57 @@ func firstWord(s string) string {
 	}
 	return s
 }
+
+// overTime: the reach claim while time passes - every router re-announces every
+// five minutes (the real announce interval), the routing-table cleaner runs
+// every ten minutes, for half an hour: after every round every router still
+// holds an exact route to every other router.
+func overTime(t *testing.T, rep *kit.Report, env kit.Env, evals, nontrivial *int64, mine func() bool) {
+	gs := []graph{line(4), ring(4), star(4)}
+	if env.Thorough() {
+		gs = append(gs, grid(2, 3), line(6), tree(7))
+	}
+	for _, g := range gs {
+		if !mine() {
+			continue
+		}
+		synctest.Test(t, func(t *testing.T) {
+			p := params{g: g, origins: allOrigins(g.n), oneSend: -1, tick: time.Millisecond}
+			ms := build(p)
+			start := time.Now()
+			nextClean := 10 * time.Minute
+			for round := 0; round <= 6; round++ {
+				ms.start()
+				steps := 0
+				for len(ms.w.InFlight) > 0 && steps < 200000 {
+					ms.w.Deliver(0)
+					steps++
+				}
+				*evals += int64(steps)
+				*nontrivial += int64(steps)
+				at := time.Since(start).Round(time.Second)
+				for _, v := range ms.reachViolations(p.origins) {
+					rep.Violate("over-time/"+g.name+"/"+firstWord(v), fmt.Sprintf("%s — %s, %v after the first announcements (announcement round %d, cleaner every 10 min)", v, g.name, at, round+1), map[string]any{"graph": g.name, "round": round})
+				}
+				for _, pn := range ms.w.Panics {
+					rep.Violate("over-time/"+g.name+"/panic", pn, g.name)
+				}
+				ms.w.Panics = nil
+				// five minutes until the next round; the cleaner runs when its ten minutes are up.
+				for slept := time.Duration(0); slept < 5*time.Minute; slept += 20 * time.Second {
+					time.Sleep(20 * time.Second)
+					if time.Since(start) >= nextClean {
+						for _, n := range ms.nodes {
+							n.RoutingTable().Clean()
+						}
+						nextClean += 10 * time.Minute
+						for _, v := range ms.reachViolations(p.origins) {
+							rep.Violate("over-time/"+g.name+"/"+firstWord(v)+"-after-cleaner", fmt.Sprintf("%s — %s, right after the cleaner at %v", v, g.name, time.Since(start).Round(time.Second)), map[string]any{"graph": g.name, "round": round})
+						}
+					}
+				}
+			}
+			rep.Outcome("over-time/30-minutes")
+		})
+	}
+}
